@@ -18,6 +18,7 @@ def _verify_target(args):
     """worker: (here, repo, qual, tier) -> result dict (no z3 objects)"""
     here, repo, qual, tier = args[:4]
     shard, nshards = (args[4], args[5]) if len(args) > 4 else (0, 1)
+    only = args[6] if len(args) > 6 else None        # retry: solve just these obligation ids
     t0 = time.time()
     out = {"target": qual, "obligations": [], "faults": [], "unsupported": None, "shard": shard}
     try:
@@ -45,7 +46,8 @@ def _verify_target(args):
             key = obligation_key(ctarget, ob)
             seen[key] = seen.get(key, 0) + 1
             if idx % nshards != shard: continue
-            discharge(ob, quick=(tier == "quick"))
+            if only is not None and ("%s#%d" % (key, seen[key])) not in only: continue
+            discharge(ob, quick=(tier == "quick"), retry=(only is not None))
             rec = {"id": "%s#%d" % (key, seen[key]), "key": key, "target": ctarget, "kind": ob["kind"], "label": ob["label"],
                    "clause": ob.get("text"), "status": ob["status"], "backend": ob.get("backend"), "time_s": ob.get("time_s"),
                    "path": "/".join(ob["trace"]), "line": ob.get("line")}
@@ -128,7 +130,7 @@ def load_baseline(here):
     return {}
 
 
-def run_property(prop, tier, repo, here, targets=None, procs=None):
+def run_property(prop, tier, repo, here, targets=None, procs=None, only=None):
     specs = _load(here)
     reg = specs.registry()
     pdef = specs.PROPERTIES.get(prop)
@@ -137,7 +139,7 @@ def run_property(prop, tier, repo, here, targets=None, procs=None):
     t0 = time.time()
     quals = targets or pdef["targets"]
     shards = pdef.get("shards", {})
-    jobs = [(_verify_target, (here, repo, q, tier, i, shards.get(q, 3))) for q in quals for i in range(shards.get(q, 3))] + \
+    jobs = [(_verify_target, (here, repo, q, tier, i, shards.get(q, 3), only)) for q in quals for i in range(shards.get(q, 3))] + \
            [(_verify_lemma, (here, repo, l, tier)) for l in (pdef.get("lemmas", []) if not targets else [])]
     ctx = mp.get_context("fork")
     with ctx.Pool(min(procs or 15, max(1, len(jobs)))) as pool:
@@ -184,7 +186,7 @@ def run_property(prop, tier, repo, here, targets=None, procs=None):
             solver_time += ob.get("time_s") or 0
     # clauses proved in the baseline that produced no obligation at all now (e.g. the code path disappeared)
     produced = {o["key"] for o in obligations}
-    for k in sorted(base - produced):
+    for k in (sorted(base - produced) if (only is None and not targets) else []):
         if any(k.startswith(reg.contracts[q].target + ("@" + reg.contracts[q].variant if getattr(reg.contracts[q], "variant", None) else "") + "/") for q in quals if q in reg.contracts) or k.startswith("lemma::"):
             kind = k.split("::", 1)[-1].split("/", 1)[-1]
             if kind.startswith(("loop-", "call-requires", "assert", "no-undeclared", "frame", "loop-frame", "decreases", "comprehension-safe")):
